@@ -8,8 +8,12 @@ ERR_NAMES = {"TypeError": "E:type", "ValueError": "E:value", "IndexError": "E:in
 
 
 def canon_err(e):
-    n = type(e).__name__
-    return ERR_NAMES.get(n, "E:other:" + n)
+    """canonical error token; subclasses map to their first known base (e.g. sklearn's
+    InvalidParameterError(ValueError, TypeError) -> E:value, NotFittedError stays itself)"""
+    for k in type(e).__mro__:
+        if k.__name__ in ERR_NAMES:
+            return ERR_NAMES[k.__name__]
+    return "E:other:" + type(e).__name__
 
 
 def show_ints(l):
